@@ -548,6 +548,11 @@ pub fn run(ctx: &Ctx) {
     ctx.space("insertion orders: every ordered pair (and triple, thorough) of distinct records x kinds, without deduplication", perms.len() as u64, "complete");
     responder_stage(ctx, false, ctx.eff_tier() == crate::engine::Tier::Thorough);
     responder_stage(ctx, true, ctx.eff_tier() == crate::engine::Tier::Thorough);
+    std::thread::scope(|s| {
+        // different service names: the two stages do not see each other's traffic as their own
+        s.spawn(|| discovery_stage(ctx, false));
+        s.spawn(|| discovery_stage(ctx, true));
+    });
     // odd-shaped owners and large stores
     {
         let mut cases: Vec<(&str, usize, Vec<usize>, Vec<usize>)> = Vec::new();
@@ -664,6 +669,149 @@ pub fn renamed_world(tag: &str) -> World {
 /// loopback multicast; every reply that comes back is judged by the same reply model.
 /// The menu is registered under a per-stage label so that both stages (and other checks) can
 /// run on the same host.
+/// The query-answering side of a running ServiceDiscovery (sync or tokio): while its instance
+/// is registered, questions for the service and the instance name are answered with records of
+/// that instance only; after remove_service_from_discovery() nothing is registered any more and
+/// the same datagrams (byte-identical repeats as well as fresh ids) get no reply.
+pub fn discovery_stage(ctx: &Ctx, asynchronous: bool) {
+    use std::net::{Ipv4Addr, UdpSocket};
+    use std::time::{Duration, Instant};
+    let key = if asynchronous { "discovery_stage_tokio" } else { "discovery_stage_sync" };
+    if !crate::engine::loopback_multicast_works() {
+        ctx.set_extra(key, json!({"ran": false, "reason": "loopback multicast does not work here"}));
+        return;
+    }
+    let kind = if asynchronous { "tokio" } else { "sync" };
+    let svc = format!("_c13d{}._tcp.local", if asynchronous { "t" } else { "s" });
+    let svc_name = RefName::txt(&svc);
+    let inst_name = RefName::txt(&format!("me.{}", svc));
+    let rt = match tokio::runtime::Builder::new_multi_thread().worker_threads(2).enable_all().build() {
+        Ok(r) => r,
+        Err(e) => {
+            ctx.set_extra(key, json!({"ran": false, "reason": format!("no runtime: {}", e)}));
+            return;
+        }
+    };
+    enum D {
+        S(simple_mdns::sync_discovery::ServiceDiscovery),
+        A(simple_mdns::async_discovery::ServiceDiscovery),
+    }
+    let me = simple_mdns::InstanceInformation::new("me".to_string()).with_port(4321).with_ip_address("10.7.7.7".parse().unwrap()).with_attribute("k".to_string(), Some("v".to_string()));
+    let started = guarded(|| -> Result<D, String> {
+        Ok(if asynchronous {
+            D::A(rt.block_on(async { simple_mdns::async_discovery::ServiceDiscovery::new(me, &svc, 120) }).map_err(|e| format!("{:?}", e))?)
+        } else {
+            D::S(simple_mdns::sync_discovery::ServiceDiscovery::new(me, &svc, 120).map_err(|e| format!("{:?}", e))?)
+        })
+    });
+    let mut disc = match started {
+        Ok(Ok(d)) => d,
+        other => {
+            ctx.set_extra(key, json!({"ran": false, "reason": format!("service could not be started: {:?}", other.err().map(|p| p.message))}));
+            return;
+        }
+    };
+    std::thread::sleep(Duration::from_millis(200));
+    let tx = match UdpSocket::bind((Ipv4Addr::UNSPECIFIED, 0)) {
+        Ok(s) => s,
+        Err(e) => {
+            ctx.set_extra(key, json!({"ran": false, "reason": format!("{}", e)}));
+            return;
+        }
+    };
+    let _ = tx.set_multicast_loop_v4(true);
+    let _ = tx.set_read_timeout(Some(Duration::from_millis(40)));
+    let datagram = |name: &RefName, qtype: u16, id: u16| {
+        let mut q = RefPacket { id, ..Default::default() };
+        q.questions.push(RefQ { name: name.clone(), qtype, qclass: 1, unicast: true });
+        q.encode(0)
+    };
+    let send_wait = |bytes: &[u8], wait_ms: u64| -> Option<RefPacket> {
+        let id = u16::from_be_bytes([bytes[0], bytes[1]]);
+        let _ = tx.send_to(bytes, (Ipv4Addr::new(224, 0, 0, 251), 5353));
+        let deadline = Instant::now() + Duration::from_millis(wait_ms);
+        let mut buf = [0u8; 9000];
+        while Instant::now() < deadline {
+            if let Ok((n, _)) = tx.recv_from(&mut buf) {
+                if let Ok((p, _)) = decode_packet(&buf[..n]) {
+                    if p.id == id && p.flags & F_QR != 0 {
+                        return Some(p);
+                    }
+                }
+            }
+        }
+        None
+    };
+    let questions: Vec<(RefName, u16)> = vec![(svc_name.clone(), 12), (inst_name.clone(), 33), (inst_name.clone(), 16), (inst_name.clone(), 255), (svc_name.clone(), 255)];
+    let mut t = Tally::default();
+    let mut n = 0u64;
+    let mut answered: Vec<Vec<u8>> = Vec::new();
+    let case = |phase: &str, name: &RefName, qtype: u16| json!({"kind": "discovery-stage", "async": asynchronous, "phase": phase, "name": name, "qtype": qtype});
+    for (i, (name, qtype)) in questions.iter().enumerate() {
+        let bytes = datagram(name, *qtype, 0x6400 + i as u16);
+        n += 1;
+        t.evals += 1;
+        t.transitions += 1;
+        let mut reply = send_wait(&bytes, 400);
+        if reply.is_none() {
+            reply = send_wait(&bytes, 700);
+        }
+        match reply {
+            None => {
+                t.outcome("discovery-silent");
+                ctx.violation(finding(format!("C13|discovery-stage|{}|no-reply-but-match", kind), format!("a running ServiceDiscovery with a registered instance does not answer a question for {:?} type {}", name, qtype), case("registered", name, *qtype)));
+            }
+            Some(p) => {
+                t.nontrivial += 1;
+                answered.push(bytes.clone());
+                for a in &p.answers {
+                    let owner_ok = a.name == *name || a.name.is_strict_subdomain_of(name);
+                    let type_ok = *qtype == 255 || a.rdata.code() == *qtype;
+                    let own = a.name == svc_name || a.name == inst_name;
+                    if !owner_ok || !type_ok || !own {
+                        t.outcome("discovery-reply-wrong");
+                        ctx.violation(finding(format!("C13|discovery-stage|{}|answer-unjustified", kind), format!("question {:?} type {}: answer {:?} type {} is not a matching record of the registered instance", name, qtype, a.name, a.rdata.code()), case("registered", name, *qtype)));
+                    }
+                }
+                // the same datagram again: the same question gets an equally good answer
+                n += 1;
+                t.evals += 1;
+                t.transitions += 1;
+                if send_wait(&bytes, 500).is_none() && send_wait(&bytes, 700).is_none() {
+                    ctx.violation(finding(format!("C13|discovery-stage|{}|repeat-unanswered", kind), format!("the byte-identical repeat of an answered query for {:?} type {} gets no reply", name, qtype), case("repeat", name, *qtype)));
+                }
+            }
+        }
+    }
+    // nothing is registered after removal
+    match &mut disc {
+        D::S(s) => s.remove_service_from_discovery(),
+        D::A(a) => rt.block_on(a.remove_service_from_discovery()),
+    }
+    std::thread::sleep(Duration::from_millis(250));
+    for (i, (name, qtype)) in questions.iter().enumerate() {
+        for (how, bytes) in [("the byte-identical repeat of a query answered before", datagram(name, *qtype, 0x6400 + i as u16)), ("a query with a fresh id", datagram(name, *qtype, 0x6500 + i as u16))] {
+            n += 1;
+            t.evals += 1;
+            t.transitions += 1;
+            if let Some(p) = send_wait(&bytes, 150) {
+                t.outcome("discovery-reply-wrong");
+                ctx.violation(finding(
+                    format!("C13|discovery-stage|{}|reply-after-removal", kind),
+                    format!("after remove_service_from_discovery() nothing is registered, yet {} for {:?} type {} is answered with {} answers and {} additional records", how, name, qtype, p.answers.len(), p.additional.len()),
+                    case("after remove_service_from_discovery", name, *qtype),
+                ));
+            }
+        }
+    }
+    t.outcome("discovery-stage");
+    ctx.merge(t);
+    ctx.set_extra(key, json!({"ran": true, "queries": n}));
+    ctx.space(&format!("running {} ServiceDiscovery over loopback multicast: questions for the service and the instance name (PTR, SRV, TXT, ANY) answered with matching records of the registered instance only, byte-identical repeats answered again; after remove_service_from_discovery() neither a repeat nor a fresh query gets a reply", kind), n, "complete for the listed questions");
+    drop(disc);
+    rt.shutdown_timeout(Duration::from_millis(100));
+}
+
 pub fn responder_stage(ctx: &Ctx, asynchronous: bool, thorough: bool) {
     use std::net::{Ipv4Addr, UdpSocket};
     use std::time::{Duration, Instant};
@@ -1053,6 +1201,10 @@ pub fn check_extra(kind: &str, n: usize, auth: &[usize], cached: &[usize]) -> (V
 }
 
 pub fn replay(case: &Value) -> Vec<Finding> {
+    if case["kind"].as_str() == Some("discovery-stage") {
+        // a socket-level observation: it is reproduced by running the stage again
+        return vec![];
+    }
     if case["kind"].as_str() == Some("responder-stage") {
         // replayed on the in-memory path: the same store content, the same question, the real build_reply
         let asynchronous = case["async"].as_bool().unwrap_or(false);
